@@ -228,6 +228,14 @@ pub fn long_runs() -> Vec<LongCase> {
 
 pub fn streams() -> Vec<Box<dyn AnyStream>> {
     vec![
+        // C01's constructor-inside-constructor enumeration with uniform spacings 0 / 3 / formatter's
+        Box::new(Stream::<Case> {
+            name: "nested-pairs",
+            quick: 0,
+            thorough: 0,
+            source: Source::Enum(Box::new(|_| Box::new(crate::props::c01::nested_pairs().into_iter().map(|(fi, v)| Case { fi, v, gaps: vec![3, 0, 1], fills: vec![1, 3] })))),
+            check: Box::new(check),
+        }),
         Box::new(Stream::<LongCase> {
             name: "long-runs",
             quick: 0,
@@ -261,7 +269,7 @@ pub fn streams() -> Vec<Box<dyn AnyStream>> {
 
 pub const PROP: Prop = Prop {
     id: "C09",
-    rule: "cases = (format, well-formed value, spacing vector, whitespace kinds): the value's token sequence (brackets, connecters, separators, prefix+name atoms, copulas, punctuation, stamp bracket/marker/signed integer, truth and budget brackets/numbers/separators) is joined with 0/1/2/5 spaces per boundary (lexical pipeline also tab, newline, U+3000, U+00A0, U+2003), plus the all-0 and all-3 vectors and the strip-everything + parse_chars macro path; stream single-boundary toggles each boundary of the formatter's own spacing in turn; oracle: both pipelines return the source value; evaluations count parser calls; non-trivial = spacing differs from the formatter's own; distinct = fingerprint of (format, value, vector)",
+    rule: "cases = (format, well-formed value, spacing vector, whitespace kinds): the value's token sequence (brackets, connecters, separators, prefix+name atoms, copulas, punctuation, stamp bracket/marker/signed integer, truth and budget brackets/numbers/separators) is joined with 0/1/2/5 spaces per boundary (lexical pipeline also tab, newline, U+3000, U+00A0, U+2003), plus the all-0 and all-3 vectors and the strip-everything + parse_chars macro path; stream single-boundary toggles each boundary of the formatter's own spacing in turn ; stream long-runs puts a run of 1 000 / 30 000 / 100 000 blanks at one boundary and parses on a default-stack thread; stream nested-pairs = C01's constructor-inside-constructor enumeration with uniform spacings; oracle: both pipelines return the source value; evaluations count parser calls; non-trivial = spacing differs from the formatter's own; distinct = fingerprint of (format, value, vector)",
     assumptions: &["the token printer is trusted only when its concatenation equals the formatter's output with spaces deleted (else inconclusive)", "canonical form as in C01"],
     streams,
 };
